@@ -290,65 +290,7 @@ func c11(r *core.Run) {
 	}
 
 	// ---- R6 create-if-absent consistency (all modules): the key whose absence is tested is the key written
-	nAbs := 0
-	for _, h := range hs {
-		for _, fn := range p.Summary(h.Fn).Funcs {
-			type site struct {
-				call   ssa.CallInstruction
-				callee *ssa.Function
-				op     *core.StoreOp
-			}
-			var getters, setters []site
-			allInstrs(fn, func(in ssa.Instruction) {
-				call, ok := in.(ssa.CallInstruction)
-				if !ok {
-					return
-				}
-				for _, cal := range p.Callees(call) {
-					if gi := p.StoreGetter(cal); gi != nil && gi.Found {
-						for _, o := range p.StoreOps(cal) {
-							if o.Kind == "Get" {
-								getters = append(getters, site{call, cal, o})
-							}
-						}
-					}
-					for _, o := range p.StoreOps(cal) {
-						if o.Kind == "Set" {
-							setters = append(setters, site{call, cal, o})
-						}
-					}
-				}
-			})
-			for _, g := range getters {
-				name := g.op.Module + "/" + g.op.Prefix
-				for _, st := range setters {
-					if st.op.Module+"/"+st.op.Prefix != name {
-						continue
-					}
-					// is the write behind Found(this getter)=false ?
-					gcall := g.call
-					notFound := func(ca *core.CondAtom, truth bool) bool {
-						return ca.Kind == "found" && !truth && ca.Call != nil && ssa.CallInstruction(ca.Call) == gcall
-					}
-					if core.PathExists(fn, p.PassEdges(fn, notFound), st.call, nil) {
-						continue // not a create-if-absent pair
-					}
-					nAbs++
-					gt := keyTermsAtCall(p, g.call, g.callee, g.op)
-					wt := keyTermsAtCall(p, st.call, st.callee, st.op)
-					same := len(gt) == len(wt)
-					for i := 0; same && i < len(gt); i++ {
-						if gt[i] != wt[i] || strings.HasPrefix(gt[i], "?") {
-							same = false
-						}
-					}
-					r.Check(same, "C11/R6", fmt.Sprintf("%s:absent-check-key=written-key:%s", h.Key(), name), p.InstrPos(st.call),
-						"the key tested for absence is the key written: "+strings.Join(wt, " / "),
-						fmt.Sprintf("a record is created behind 'not found' for key %v but written under key %v: an existing record of another account can be overwritten", gt, wt))
-				}
-			}
-		}
-	}
+	nAbs := absentCheckKeyAgreement(r, "C11/R6", hs)
 	r.Floor("C11/R6", nAbs, 5, "create-if-absent pairs")
 
 	// ---- R7 load/write key agreement: a unit that loads a record of a prefix (getter with found flag) and writes a
